@@ -137,6 +137,20 @@ def control_field_sweep(cases, thorough, seed):
             for a, b in wide:
                 out.append(dict(keep, frames=[{"bytes": [a, b, 0], "trunc": False}] + c["frames"][1:], fault="cf-sweep", chunk=0))
                 out.append(dict(keep, frames=[c["frames"][0], {"bytes": [a, b, 0], "trunc": False}] + c["frames"][1:], fault="cf-sweep-reply", chunk=0))
+    # an intermediate status with every status byte (a one-byte field: exhaustive), then a frame that cannot be interpreted (foreign,
+    # malformed, NACK, cut short) or the rest of the fault-free script: what the terminal displays does not change the discipline
+    faults = [[{"bytes": [4, 13, 0], "trunc": False}], [{"bytes": [6, 15, 2, 41, 0], "trunc": False}], [{"bytes": [0x84, 0x9c, 0], "trunc": False}],
+              [{"bytes": [4, 15, 5, 39], "trunc": True}]]
+    for cmd, c in sorted(base.items()):
+        keep = {k: v for k, v in c.items() if k not in ("frames", "log", "left")}
+        for st in range(256):
+            inter = {"bytes": [4, 255, 1, st], "trunc": False}
+            tail = faults[st % 4] if not thorough else None
+            for t in ([tail] if tail is not None else faults):
+                out.append(dict(keep, frames=[c["frames"][0], inter] + t, fault="status-sweep", chunk=0))
+            if st % 4 == 0 or thorough:
+                out.append(dict(keep, frames=[c["frames"][0], inter, inter] + faults[(st // 4) % 4], fault="status-sweep", chunk=0))
+                out.append(dict(keep, frames=[c["frames"][0], inter] + c["frames"][1:], fault="status-sweep", chunk=0))
     # long exchanges: 63 / 64 / 65 / 130 / 300 non-final replies in front of the rest of a fault-free script
     for cmd, c in sorted(base.items()):
         fs = c["frames"]
